@@ -285,4 +285,15 @@ example : Ufw.Gen.EndpFns.sink_put_chunk 9 1#32 { script := [DStep.xfer 2, DStep
       [1#8, 2#8, 3#8, 4#8, 5#8] 5#64
     = Res.val (5#64, { got := [1#8, 2#8, 3#8, 4#8, 5#8], script := [], calls := 4 }) := by decide
 
+/-- `sink_put_chunk_atmost(sink, buf, n)`: one attempt, no loop -/
+theorem gen_sink_put_chunk_atmost (F G : Nat) (s : MSnk) (d : List Octet) (n : BitVec 64)
+    (hnd : (Ufw.Model.Endpoints.sink_put_chunk_atmost F s d).1 ≠ R.diverge) (hG : F + 2 ≤ G)
+    (hn : n.toNat = d.length) (hsmall : d.length < 2 ^ 63) :
+    Ufw.Gen.EndpFns.sink_put_chunk_atmost G (kindCode s.kind) (snkD s) d n
+      = Res.val (rc64 (Ufw.Model.Endpoints.sink_put_chunk_atmost F s d).1,
+                 snkD (Ufw.Model.Endpoints.sink_put_chunk_atmost F s d).2) := by
+  unfold Ufw.Gen.EndpFns.sink_put_chunk_atmost Ufw.Model.Endpoints.sink_put_chunk_atmost at *
+  simp only [List.drop_zero]
+  rw [gen_once_sink_put_chunk F G s d n hnd (by omega) hn hsmall, Res.bind_val]
+
 end Ufw.Tie.EndpFns
